@@ -458,3 +458,49 @@ func I6b(rc *RC) {
 		rc.S.Viol("I6b", "ndNext~ndPrevious", pos, fmt.Sprintf("forward and backward odometer are not mirror images (%d of %d mirrored statements found): %s", hits, len(rep), firstDiff(na, mb))).Sig = firstDiff(na, mb)
 	}
 }
+
+// I7: mask pairing in the multi-iterator. The combined mask is the OR of the operands' masks
+// at the position each operand's own flat iterator has reached: the mask of operand j must be
+// indexed by lastIndexArr[j], never by the lead index or another operand's index.
+func I7(rc *RC) {
+	rc.S.Declare("I7", "multi-iterator mask pairing: in MultIteratorFromDense the mask of operand j is read at lastIndexArr[j] (the operand's own offset), whatever the spelling of the loop", 1)
+	fi := anchor(rc, "I7", "tensor.MultIteratorFromDense")
+	if fi == nil {
+		return
+	}
+	pos := rc.P.Pos(fi.Decl.Pos())
+	_, tree := sCanon(rc, fi)
+	txt := ir.Render(tree)
+	re := regexp.MustCompile(`(\$tts\[[^\]]+\])\.\(tensor\.MaskedTensor\)\.Mask\(\)\[`)
+	locs := re.FindAllStringSubmatchIndex(txt, -1)
+	if len(locs) == 0 {
+		rc.S.Undec("I7", "tensor.MultIteratorFromDense#mask", pos, "no read of an operand's mask found")
+		return
+	}
+	var bad []string
+	for _, l := range locs {
+		op := txt[l[2]:l[3]] // $tts[J]
+		j := op[len("$tts[") : len(op)-1]
+		// the index expression: balanced up to the closing bracket
+		k := l[1]
+		d := 1
+		e := k
+		for e < len(txt) && d > 0 {
+			if txt[e] == '[' {
+				d++
+			} else if txt[e] == ']' {
+				d--
+			}
+			e++
+		}
+		idx := txt[k : e-1]
+		if !regexp.MustCompile(`^[%$]\w+\.lastIndexArr\[` + regexp.QuoteMeta(j) + `\]$`).MatchString(idx) {
+			bad = append(bad, fmt.Sprintf("mask of operand %s is read at [%s], want lastIndexArr[%s]", op, idx, j))
+		}
+	}
+	if len(bad) > 0 {
+		rc.S.Viol("I7", "tensor.MultIteratorFromDense#mask", pos, strings.Join(uniq(bad), "; ")).Sig = firstWords(bad)
+	} else {
+		rc.S.Ok("I7", "tensor.MultIteratorFromDense#mask", pos, fmt.Sprintf("%d mask read(s) paired with the operand's own index", len(locs)))
+	}
+}
